@@ -107,15 +107,21 @@ func writeInt(ctx context.Context, c *opcua.Client, nid *ua.NodeID, v int32) (ua
 // wireMsg is one single-chunk message of a security-mode-None connection as seen on the wire tap.
 type wireMsg struct {
 	Dir   string // c2s | s2c
+	Conn  int    // connection epoch: index of the client end of the TCP connection
 	ReqID uint32
 	At    int64
 	Svc   interface{} // decoded service (request or response), nil if it does not decode
+	// Consumed reports whether the receiving end read the whole message off the
+	// connection (false: it was still in flight when the connection broke or the run ended).
+	Consumed bool
 }
 
 // decodeTap decodes every single-chunk MSG of the tap (mode None). Multi-chunk messages are skipped.
 func decodeTap(tap []vnet.WireEvent) []wireMsg {
 	var out []wireMsg
 	streams := map[int][]byte{}
+	offset := map[int]int{}
+	conns := vnet.Last().Conns
 	for _, ev := range tap {
 		streams[ev.Conn] = append(streams[ev.Conn], ev.Data...)
 		for {
@@ -129,10 +135,15 @@ func decodeTap(tap []vnet.WireEvent) []wireMsg {
 			}
 			f := b[:size]
 			streams[ev.Conn] = b[size:]
+			offset[ev.Conn] += size
 			if string(f[:4]) != "MSGF" || size < 28 {
 				continue
 			}
-			m := wireMsg{Dir: "s2c", ReqID: binary.LittleEndian.Uint32(f[20:]), At: ev.At}
+			consumed := false
+			if peer := ev.Conn ^ 1; peer < len(conns) {
+				consumed = conns[peer].ReadBytes >= offset[ev.Conn]
+			}
+			m := wireMsg{Consumed: consumed, Dir: "s2c", ReqID: binary.LittleEndian.Uint32(f[20:]), At: ev.At, Conn: ev.Conn &^ 1}
 			if strings.HasPrefix(ev.From, "client") {
 				m.Dir = "c2s"
 			}
